@@ -150,6 +150,102 @@ static struct cstl_slist * list_of(const char * s)
     return (i >= 1 && i <= NL) ? &lists[i - 1] : NULL;
 }
 
+/*
+ * bigsort <l> <n> <nkeys> <seed>: list l must be empty.  n elements from a
+ * separate large pool with LCG keys below nkeys are appended, the list is
+ * sorted, and the result is checked here step by step (size, every element
+ * exactly once, keys non-decreasing, tail = true last: back() and a push_back
+ * afterwards), then the list is emptied again.  Result `ok ck=<checksum of the
+ * final order>` (the model computes the same checksum from its sequence-level
+ * merge sort) or `bad <what>`.
+ */
+static void bigsort(struct cstl_slist * l, size_t n, long nkeys, unsigned long seed)
+{
+    struct elem * big = calloc(n + 2, sizeof(*big));
+    unsigned char * seen = calloc(n + 2, 1);
+    unsigned long x = seed % 2147483648UL;
+    unsigned long long ck = 7;
+    const unsigned long long P = 2147483647ULL;
+    const char * what = NULL;
+    const struct elem * e, * last = NULL;
+    size_t i, cnt = 0;
+    const int second = (l == &lists[2]);
+
+    if (big == NULL || seen == NULL) {
+        h_stop("bad-op");
+        return;
+    }
+    for (i = 0; i < n; i++) {
+        x = (x * 1103515245UL + 12345UL) % 2147483648UL;
+        big[i].key = (int)((x / 256) % (unsigned long)nkeys);
+        cstl_slist_push_back(l, &big[i]);
+    }
+    cstl_slist_sort(l, cmp_elem, H_PRIV(1));
+    if (cstl_slist_size(l) != n) {
+        what = "size-changed";
+    }
+    for (e = cstl_slist_front(l); e != NULL && what == NULL; ) {
+        const struct cstl_slist_node * nx;
+        size_t idx;
+        if (e < big || e >= big + n || ((const char *)e - (const char *)big) % sizeof(*big) != 0) {
+            what = "foreign-element";
+            break;
+        }
+        idx = (size_t)(e - big);
+        if (seen[idx]) {
+            what = "element-twice";
+            break;
+        }
+        seen[idx] = 1;
+        if (last != NULL && last->key > e->key) {
+            what = "not-sorted";
+            break;
+        }
+        ck = (ck * 1000003ULL + (idx + 1) % P) % P;
+        last = e;
+        if (++cnt > n) {
+            what = "too-many-elements";
+            break;
+        }
+        nx = second ? e->n2.n : e->n.n;
+        e = nx == NULL ? NULL : (const struct elem *)((const char *)nx - (second ? offsetof(struct elem, n2) : offsetof(struct elem, n)));
+    }
+    if (what == NULL && cnt != n) {
+        what = "elements-lost";
+    }
+    if (what == NULL && n > 0 && cstl_slist_back(l) != last) {
+        what = "back-is-not-the-last-element";
+    }
+    if (what == NULL) {
+        /* push_back must append after the true last element */
+        big[n].key = 2147483647;
+        cstl_slist_push_back(l, &big[n]);
+        if (cstl_slist_back(l) != &big[n] || cstl_slist_size(l) != n + 1
+            || (last != NULL && (second ? last->n2.n != &big[n].n2 : last->n.n != &big[n].n))) {
+            what = "push_back-after-sort-not-appended-after-the-last";
+        }
+    }
+    if (what == NULL) {
+        for (i = 0; i < n + 1; i++) {
+            if (cstl_slist_pop_front(l) == NULL) {
+                what = "pop_front-null-before-empty";
+                break;
+            }
+        }
+        if (what == NULL && (cstl_slist_pop_front(l) != NULL || cstl_slist_size(l) != 0)) {
+            what = "not-empty-after-draining";
+        }
+    }
+    if (what != NULL) {
+        outf("bad %s", what);
+        cstl_slist_init(l, second ? offsetof(struct elem, n2) : offsetof(struct elem, n));
+    } else {
+        outf("ok ck=%llu", ck);
+    }
+    free(seen);
+    free(big);
+}
+
 static void op(int argc, char ** argv)
 {
     const char * o = argv[0];
@@ -184,6 +280,9 @@ static void op(int argc, char ** argv)
     } else if (!strcmp(o, "sort") && argc == 2 && l) {
         cstl_slist_sort(l, cmp_elem, H_PRIV(1));
         outf("ok");
+    } else if (!strcmp(o, "bigsort") && argc == 5 && l && cstl_slist_size(l) == 0
+               && h_size(argv[2]) <= 2000000 && h_int(argv[3]) >= 1) {
+        bigsort(l, h_size(argv[2]), (long)h_int(argv[3]), (unsigned long)h_size(argv[4]));
     } else if (!strcmp(o, "concat") && argc == 3 && l && list_of(argv[2]) && l != list_of(argv[2])) {
         cstl_slist_concat(l, list_of(argv[2]));
         outf("ok");
